@@ -5,7 +5,10 @@ tier = sys.argv[1] if len(sys.argv) > 1 else 'quick'
 rows = []
 for i in range(1, 21):
     cid = 'C%02d' % i
-    ev = json.load(open('/verif/evidence/%s.json' % cid))
+    f = '/verif/evidence/%s.json' % cid
+    if tier == 'thorough' and os.path.exists('/verif/evidence_thorough/%s.json' % cid):
+        f = '/verif/evidence_thorough/%s.json' % cid
+    ev = json.load(open(f))
     if ev['tier'] == tier:
         c = ev['coverage']
         rows.append((cid, c['configs'], c['top_level_paths'], c['merged_call_paths'], c['queries']['total'], c['queries']['unsat'], c['queries']['unknown'], c['unexplored_configs'], ev['wall_s']))
